@@ -257,6 +257,23 @@ CLAIMED = {
         note=COMMON_NOTE + "The engine model is hand-written; it is compared with the real engine on ~1.5k/40k attacker streams per run. "
              "CURVE/NOISE mechanisms are abstract in the model (AbsSpec).",
         design="§8 C06"),
+    "C18": dict(
+        engine="M11 Record + M1 Wire",
+        technique="Lean 4 theorems about the record layer under an IDEAL AEAD (only the honest record number j opens in slot j): acceptance is an "
+                  "in-order prefix for every adversarial record stream (induction over the stream), composed with C03's prefix-monotone decoder; "
+                  "chunking lemmas (reassembly, exact 16-bit length); the negation of session freshness for CURVE with a witness; tie: translator "
+                  "re-extracts chunking, length check, control-frame path, nonce and key-schedule facts (theorems `source_shape`, "
+                  "`curve_as_it_is`), stack scenarios on real CURVE / Noise_XX sockets through a recording and tampering proxy",
+        text="Proof over the model: whatever an on-path adversary does to the record stream (any order, multiplicity and mixture of honest and "
+             "foreign records) the receiver accepts exactly records 0..k-1, its parser sees a prefix of the sender's plaintext and decodes a "
+             "prefix of the sender's frames - never a wrong, partial, reordered or duplicated one; each single mutation named by the property "
+             "(flip, drop, duplicate, swap, cut, inject) stops the receiver at that record; a batch of any size is cut into non-empty pieces "
+             "that reassemble exactly and whose 16-bit length is exact (the earlier one-record-per-batch shape wraps at 65520 bytes); honest "
+             "streams decode completely. 11 theorems. 'Two sessions never encrypt the same plaintext to the same bytes' is FALSE of CURVE and "
+             "proved so (`curve_sessions_repeat`) - KNOWN FINDING C18:curve-sessions-repeat, replayed on every run. Partial: secrecy and "
+             "unforgeability are the AEAD's (assumed ideal); 'no cleartext on the wire' is observed by the proxy, not proved.",
+        note=COMMON_NOTE + "Ideal-AEAD assumption: crypto_box (XSalsa20-Poly1305) and ChaChaPoly are not modelled.",
+        design="§8 C18"),
     "C19": dict(
         engine="M2 Engine",
         technique="Lean 4 theorems about the heartbeat state machine (time as Nat ms): exact ping condition, deadline arithmetic, "
